@@ -225,7 +225,8 @@ def run_stream(stream, cuts, idle):
         await asyncio.sleep(1.0)
         samples.append(retained_bytes(sim.client))
         await sim.call("close")
-    sim, stats = simgw.run_session("waveshare", scenario, max_steps=2_000_000)
+    # every third session a second, untouched serial client lives in the same process (its own port, its own two packets)
+    sim, stats = simgw.run_session("waveshare", scenario, max_steps=2_000_000, bystander=(len(stream) + len(cuts)) % 3 == 0)
     return sim, stats, samples
 
 
@@ -241,6 +242,7 @@ def judge(segs, stream, required, windows, damaged, cuts, sim, stats, samples, a
         acc.inconclusive_because(f"simulator: {stats['error']}")
         return
     acc.case((stream[:4096], len(stream), tuple(cuts[:200])) if (damaged and len(required) >= 2) else None)
+    simgw.judge_bystander(sim, acc, w)
     # delivered messages -> window offsets, in stream order
     dec = NMEA2000Decoder()
     win_proj = {}
